@@ -5,6 +5,7 @@ import JanetModel.Parse.Lemmas
 import JanetModel.PP.Jdn
 import JanetModel.Parse.Escape
 import JanetModel.Parse.Pos
+import JanetModel.Parse.Pure
 
 namespace JanetModel.Props.C11
 open JanetModel.Parse JanetModel.PP JanetModel.Gen.Parse
@@ -63,6 +64,44 @@ theorem status_produce_pure_partial (p : Parser) :
   constructor
   · intro h; simp [takeError, h]
   · intro h; simp [produce, produceWrapped, h]
+
+/-- ★ For EVERY interleaving of bytes, `parser/produce` calls and pure queries (status / has-more / where / state), starting from
+    a fresh parser, the values and errors the client ends up with are exactly those of feeding the bytes alone: queries and
+    dequeuing do not change what later bytes produce.  (`Op.query` is the identity because in the model those calls return
+    no parser; `produce` is the real dequeue: bottom of the argument stack removed, `pending` and `states[0].argn` decremented.)
+    Rests on the lock-step lemma `step_dropQ` (every consumer commutes with removing the oldest queued value) and on the
+    invariant `WF` (frame shape, Σ container argn + pending = argcount, root argn = pending), which needs the flush fix. -/
+theorem status_produce_pure (scan : List B → Option String) (ops : List Op) :
+    (ops.foldl (runOp scan) Run.init).events = (feed scan Run.init (bytesOf ops)).events :=
+  schedule_pure scan ops Run.init WF_init
+
+/-- the same from any well-formed run, e.g. any state reached by `feed` / `produce` from a fresh parser -/
+theorem status_produce_pure_from (scan : List B → Option String) (r : Run) (h : WF r.p) (ops : List Op) :
+    (ops.foldl (runOp scan) r).events = (feed scan r (bytesOf ops)).events :=
+  schedule_pure scan ops r h
+
+/-- the invariant holds in every state reachable by bytes and dequeues -/
+theorem wf_reachable (scan : List B → Option String) (ops : List Op) : WF (ops.foldl (runOp scan) Run.init).p := by
+  have : ∀ (ops : List Op) (r : Run), WF r.p → WF (ops.foldl (runOp scan) r).p := by
+    intro ops
+    induction ops with
+    | nil => intro r h; exact h
+    | cons op ops ih =>
+      intro r h
+      cases op with
+      | byte c => exact ih _ (WF_feedByte scan c h)
+      | produce => exact ih _ (WF_produceRun h)
+      | query => exact ih _ h
+  exact this ops Run.init WF_init
+
+/-- in every reachable state the frame walk of `parser/state` stays inside the argument array -/
+theorem frames_in_bounds_reachable (scan : List B → Option String) (ops : List Op) :
+    inner (ops.foldl (runOp scan) Run.init).p.states ≤ (ops.foldl (runOp scan) Run.init).p.args.length := by
+  have := (wf_reachable scan ops).sum
+  omega
+
+example : (([Op.byte 49, .byte 32, .produce, .byte 50, .query, .byte 32].foldl (runOp (fun _ => some "n")) Run.init).events).length = 2 := by
+  decide
 
 /-- `parser/produce` changes only the value queue: position, buffer, error latch, flag and the kind / position of every
     frame are untouched (only the root frame's count is decremented). -/
